@@ -21,6 +21,9 @@ DEFAULT_PARAMS = [1e-2, 1e-1, 1.0]
 POISSON = {"greens": "greens_function_convolution", "fastdiag": "fast_diagonalisation"}
 
 
+_FILTER_DICTS: dict = {}
+
+
 def dim_of(kind: str) -> int:
     return 2 if kind in ("ns2d", "pt2d") else 3
 
@@ -61,7 +64,10 @@ def make_sim(cfg: dict, num_threads=False):
         if c["filter"] is not None:
             kw["filter_vorticity"] = True
             if not c["filter_default"]:
-                kw["filter_setting_dict"] = {"type": c["filter"][0], "order": int(c["filter"][1])}
+                # ONE settings dictionary per (type, order) for the whole process, handed to every simulator built with
+                # these settings - as a user holding one configuration object does (a constructor must not consume it)
+                key = (c["filter"][0], int(c["filter"][1]))
+                kw["filter_setting_dict"] = _FILTER_DICTS.setdefault(key, {"type": key[0], "order": key[1]})
         return sps.UnboundedNavierStokesFlowSimulator3D(
             grid_size=c["shape"], x_range=c["x_range"], kinematic_viscosity=nu, real_t=real_t, num_threads=num_threads,
             with_forcing=c["forcing"], with_free_stream_flow=c["stream"], flow_density=rho, penalty_zone_width=c["width"], time=c["time0"],
